@@ -104,6 +104,11 @@ def ops(rng, tier, floats_only=False):
             o = "9f" + doc + "07ff"
             out.append(f"dextra GapRead O {o} #D=1,3,7@{len(o) // 2}")
         out += ["dextra GapRead M a2000101" + "02 #D=err:missing", "dextra GapRead M a10001 #D=err:missing", "dextra GapRead M a3000101020203 #D=1,3@7"]
+        # transparent tuple structs whose one encoded field is not the first one: the bytes (and the length) of that field
+        for num in (0, 23, 24, 300, 70000, 2**64 - 1):
+            hd = gen.head(0, num).hex()
+            txt = str(num).encode()
+            out += [f"dextra TrSkip first {num} #X={hd} #D=-", f"dextra TrSkip last {num} #X={hd} #D=-", f"dextra TrSkip mid {num} #X={(gen.head(3, len(txt)) + txt).hex()} #D=-"]
         for t_ in ("-", "61", "616263", "c3a9e282ac", "78" * 24):
             out.append(f"dextra CowS {t_} 7")
         # a three-state type whose nil value (K) is not what its decoder makes of `null` (C): a written `null` belongs to the type's decoder
@@ -145,6 +150,8 @@ def judge(op, impl, model, spec):
         return "violation"
     dd = [a[3:] for a in op.split(" ") if a.startswith("#D=")]
     if dd:
+        if x and iw[1] != f"len={len(x[0]) // 2}":
+            return "violation"              # where the bytes are spelled out, minicbor::len is their number
         return "ok" if iw[2][4:] == dd[0] else "violation"
     nbytes = 0 if iw[0] == "-" else len(iw[0]) // 2
     want = ",".join(w[2:]) if w[1] not in ("CowA", "CowS") else f"{w[2]},{w[3]}"
